@@ -428,6 +428,8 @@ impl Store {
             .prefix(idx_topic_key_prefix(context_id, topic))
             .rev()
             .find_map(|kv| self.get(&idx_topic_frame_id_from_key(&kv.unwrap().0)))
+            // a topic containing the key delimiter can prefix-match another topic's entries
+            .filter(|frame| frame.topic == topic)
     }
 
     #[tracing::instrument(skip(self), fields(id = %id.to_string()))]
